@@ -52,7 +52,7 @@ def yaml_scalar(text: str):
     """PyYAML (pure-Python SafeLoader) reading `text` as one document; ('ok', value) | ('error', class name)."""
     try:
         return "ok", yaml.load(text, Loader=yaml.SafeLoader)
-    except yaml.YAMLError as e:
+    except (yaml.YAMLError, ValueError) as e:      # ValueError: chr() of an out-of-range \U escape inside the scanner
         return "error", type(e).__name__
 
 
@@ -81,16 +81,20 @@ def dq_corr(chk, texts, mechanism="write_double_quoted"):
         spec = drv_undq_cache(chk, impl)
         kind, val = yaml_scalar(impl)
         spec_ok = spec is not None and spec["rest"] == []
-        if spec_ok != (kind == "ok" and isinstance(val, str)) and "\n" not in impl:
-            raise InfraError(f"Lean decodeDQ and PyYAML disagree on acceptance of {impl!r}: {spec} vs {kind} {val!r}")
-        if spec_ok and kind == "ok" and cps(val) != spec["s"]:
+        yaml_ok = kind == "ok" and isinstance(val, str)
+        # the Lean decoder reads single-line scalars only: what it accepts PyYAML must accept with the same value
+        if spec_ok and not yaml_ok:
+            raise InfraError(f"Lean decodeDQ accepts {impl!r}, PyYAML does not: {spec} vs {kind} {val!r}")
+        if spec_ok and yaml_ok and cps(val) != spec["s"]:
             raise InfraError(f"Lean decodeDQ and PyYAML disagree on {impl!r}: {spec['s']} vs {cps(val)}")
-        if not spec_ok or kind != "ok":
+        if not yaml_ok:
             chk.violation("C16:write_double_quoted:not-a-yaml-scalar", "write_double_quoted emitted text that is not one YAML "
                           "double-quoted scalar", {"kind": "dq", "text": cps(t), "impl": impl, "yaml": [kind, str(val)]})
-        elif spec["s"] != cps(t):
+        elif cps(val) != cps(t):
             chk.violation("C16:write_double_quoted:not-lossless", "a YAML reader does not get back the text given to "
-                          "write_double_quoted", {"kind": "dq", "text": cps(t), "impl": impl, "decoded": spec["s"]})
+                          "write_double_quoted", {"kind": "dq", "text": cps(t), "impl": impl, "decoded": cps(val)})
+        elif not spec_ok:
+            chk.feature("dq:valid-yaml-outside-the-single-line-subset")
 
 
 _UNDQ: dict = {}
@@ -352,7 +356,7 @@ def vcr_judge(chk, mechanism, recorders, feds, preserve, variant, argv=None, san
         try:
             tree = yaml.load(text, Loader=yaml.BaseLoader)
             yerr = None
-        except yaml.YAMLError as e:
+        except (yaml.YAMLError, ValueError) as e:
             tree, yerr = None, e
         lines = text.split("\n")
         bad = [ln for ln, t in zip(lines, parsed["lines"]) if t is None] if len(lines) == len(parsed["lines"]) else None
@@ -459,7 +463,7 @@ def threaded_cassette(chk, rng, fmt, n):
                         if inter.response is not None:
                             inter.response.headers = {k: v for k, v in inter.response.headers.items()
                                                       if k not in [b.lower() for b in W.BAD_HEADER_NAMES]}
-                    status = W.Status.SUCCESS
+                    status = rng.choice(list(W.Status))
                     w.handle_event(ctx, W.scenario_finished(rec, status))
                     w.handle_event(ctx, events.EngineFinished(running_time=1.0)) if rng.random() < 0.1 else None
                     expected += list(rec.interactions)
@@ -858,9 +862,10 @@ def codec_corr(chk, rng, n):
         impl = json.dumps(t)
         spec = _UNDQ[impl]
         kind, val = yaml_scalar(impl)
-        if (spec is not None and spec["rest"] == []) != (kind == "ok"):
-            raise InfraError(f"decodeDQ / PyYAML acceptance differs on {impl!r}")
-        if kind == "ok" and spec["s"] != cps(val):
+        spec_ok = spec is not None and spec["rest"] == []
+        if spec_ok and kind != "ok":
+            raise InfraError(f"decodeDQ accepts {impl!r}, PyYAML does not")
+        if spec_ok and kind == "ok" and spec["s"] != cps(val):
             raise InfraError(f"decodeDQ / PyYAML value differs on {impl!r}")
         if kind != "ok" or val != t:
             if all(ord(c) < 0x10000 for c in t):
